@@ -478,7 +478,13 @@ pub fn generate(rng: &mut Rng, property: &str, deep: bool) -> Scn {
         break;
     }
     repartition_seed = rng.next_u64() >> 1;
-    if repartition_seed % MARATHON_ONE_IN == 0 {
+    // (Not with an overshooting easing in the configuration: every re-blend under a Back curve
+    // starts by moving away from its target, and hundreds of re-blends in a row can ratchet a
+    // value outwards exponentially - out of an integer's range, which is the panic `Lerp`
+    // documents, not a defect. Found by the first thorough sweep with marathon runs: three
+    // alarms of my own making in 1.2e8 runs.)
+    let overshooting = spec.states.iter().flatten().any(|m| m.parts.iter().any(|p| p.uses_back()));
+    if repartition_seed % MARATHON_ONE_IN == 0 && !overshooting {
         let mut r = Rng::new(repartition_seed ^ 0x6d61_7261_7468_6f6e);
         target_ops = ops.len() + r.range(250, if property == "C06" || property == "C20" { 700 } else if deep { 4000 } else { 1500 }) as usize;
         if r.chance(0.5) {
